@@ -343,6 +343,9 @@ def generate(seed, run, tier):
                 events.append({"op": "iter_next", "it": it, "n": wrng.randint(1, 3), "c": it})
     for it in sorted(live):
         events.append({"op": "iter_drain", "it": it, "c": it})
+    if crng.random() < 0.02 and events:
+        pos = srng.randrange(len(events) + 1)
+        events.insert(pos, {"op": "flood", "n": crng.choice([4200, 8300]), "c": "R9", "t": 0})
     return {"config": config, "events": events}
 
 
@@ -620,6 +623,34 @@ class Run(object):
         elif op == "match":
             self.check_match(t, ev["host"], ev.get("hows", ["plain"]), ev["form"], op)
             stats.event("%s|match|%s|%s" % (ev.get("c"), canon(ev["host"]), ev["form"]))
+        elif op == "flood":
+            # thousands of distinct hostnames (more than a bounded cache holds)
+            n = min(int(ev.get("n", 0)), 20000)
+            trie, model = self.tries[t], self.models[t]
+            tail = self.cfg["alphabet"][0] if self.cfg.get("alphabet") else "zz"
+            for i in range(n):
+                labels = ("flood%d" % i, tail)
+                got = trie.match("http://flood%d.%s/" % (i, tail))
+                stats.checks += 1
+                if got is not model.covered(labels):
+                    self.fail("match", op, got, model.covered(labels), {"host": list(labels)})
+            stats.probe("flood_of_distinct_lookups")
+            stats.event("%s|flood|%d" % (ev.get("c"), n))
+            self.sweep(t, "flood", force=True)
+        elif op == "flood":
+            # thousands of distinct hostnames (more than a bounded cache holds)
+            n = min(int(ev.get("n", 0)), 20000)
+            trie, model = self.tries[t], self.models[t]
+            tail = self.cfg["alphabet"][0] if self.cfg.get("alphabet") else "zz"
+            for i in range(n):
+                labels = ("flood%d" % i, tail)
+                got = trie.match("http://flood%d.%s/" % (i, tail))
+                stats.checks += 1
+                if got is not model.covered(labels):
+                    self.fail("match", op, got, model.covered(labels), {"host": list(labels)})
+            stats.probe("flood_of_distinct_lookups")
+            stats.event("%s|flood|%d" % (ev.get("c"), n))
+            self.sweep(t, "flood", force=True)
         elif op == "match_hostless":
             got = self.tries[t].match(ev["url"])
             stats.checks += 1
@@ -766,6 +797,10 @@ def shrink_event(config, ev):
     if ev.get("t"):
         e = dict(ev)
         e["t"] = 0
+        out.append(e)
+    if ev.get("op") == "flood" and ev.get("n", 0) > 1:
+        e = dict(ev)
+        e["n"] = ev["n"] // 2
         out.append(e)
     return out
 
